@@ -354,7 +354,8 @@ class Check(core.PropertyCheck):
     def _prefix_run(self, ctx):
         """The model of the code as found (FixUpstream = FALSE) must still reach the clause, i.e. the monitor is not
         vacuous with respect to the defect that was repaired."""
-        pre = ctx.model_check(self.MODEL, self.model_constants("quick") | {"FixUpstream": False}, dump=False,
+        chunks = {} if ctx.quick else {"MaxReqChunks": 1, "MaxRespChunks": 1}
+        pre = ctx.model_check(self.MODEL, self.model_constants("quick") | chunks | {"FixUpstream": False}, dump=False,
                               tag="_prefix")
         if ["C03.response_and_error", "response_after_error"] not in pre.bad:
             raise core.MachineryError("clause C03.response_and_error unreachable in the pre-repair model")
@@ -422,7 +423,7 @@ class Check(core.PropertyCheck):
             yield core.Scenario({"ops": ops}, predicted=pred, source="model")
         if not ctx.quick:
             big = self.model_constants("thorough")
-            behs2, _r = ctx.simulate(self.MODEL, big, num=6000, depth=60)
+            behs2, _r = ctx.simulate(self.MODEL, big, num=4000, depth=60)
             for b in behs2:
                 ops = self._ops(b)
                 pred = core.predicted_events(b)
@@ -430,7 +431,7 @@ class Check(core.PropertyCheck):
                     pred = pred + [{"k": "end"}]
                 yield core.Scenario({"ops": ops}, predicted=pred, source="simulate")
         rng = random.Random(ctx.seed + 3)
-        for _ in range(600 if ctx.quick else 30000):
+        for _ in range(600 if ctx.quick else 10000):
             yield core.Scenario({"ops": None, "seed": rng.randrange(1 << 30), "n": rng.randint(8, 40),
                                  "nflows": rng.choice([1, 1, 2, 3, 4])}, source="random")
 
@@ -482,7 +483,7 @@ class Check(core.PropertyCheck):
                     path.append((nm, ar, nx2))
                     cur = nx2
                 out.append(path)
-        for _ in range(300 if ctx.quick else 5000):
+        for _ in range(300 if ctx.quick else 3000):
             cur = rng.choice(g.init)
             path = [("Init", (), cur)]
             while len(path) < 40:
